@@ -650,7 +650,7 @@ func run(r *chk.Run) {
 	r.Assume("TINY/MEDIUM/LONG_BLOB type codes are not written to table maps by a server (BLOB with 1..4 length bytes is)")
 	// end-to-end half (engine E2): NULL / empty / absent as the handler sees them
 	e2.RunNullEmptyAbsent(r)
-	e2.RunScale(r, "wide-table")
+	e2.RunScale(r, "wide-table", "big-events")
 	e2.RunSchemaChange(r)
 	e2.RunPartialImages(r)
 	r.SetExhaustive(true)
